@@ -53,3 +53,53 @@ def roundtrip_detail(r, ienvs, F=None):
     if truth(m2, ienvs) != truth(r, ienvs): return f"text {s!r} re-parses to a marker with another truth table"
     if F is not None and F.one("marker_ok", s) != [True]: return f"text {s!r} is rejected by the reference parser"
     return None
+
+
+# ----------------------------------------------------------------------------- search after a broken proof / correspondence
+import re as _re
+_LEAF = _re.compile(r"""(?:[A-Za-z_.]+\s*(?:===|==|!=|<=|>=|~=|<|>|not\s+in|in)\s*(?:"[^"]*"|'[^']*'))|(?:(?:"[^"]*"|'[^']*')\s*(?:===|==|!=|<=|>=|~=|<|>|not\s+in|in)\s*[A-Za-z_.]+)""")
+def leaves_of(text):
+    return list(dict.fromkeys(m.group(0) for m in _LEAF.finditer(text or "")))
+def marker_variants(texts, limit=400):
+    """the clauses of the disagreeing markers alone and in pairs under 'and' / 'or' (both orders)"""
+    ls = []
+    for t in texts:
+        for l in leaves_of(t):
+            if l not in ls: ls.append(l)
+    out = list(ls)
+    for x in ls:
+        for y in ls:
+            if x != y:
+                out += [f"{x} and {y}", f"{x} or {y}"]
+                if len(out) >= limit: return out
+    return out
+def make_marker_search(judge_one=None, judge_pair=None, fresh=None):
+    """judge_one(text) / judge_pair(text_a, text_b) -> detail or None on the implementation.  Used by Run.finish when a theorem
+    or the correspondence no longer checks: the neighbourhood of every disagreeing case first, then [fresh] new cases."""
+    def search(R):
+        tried = 0
+        for _rel, case, *_ in R.disagreements:
+            texts = [case.get(k) for k in ("marker", "a", "b") if isinstance(case.get(k), str)]
+            vs = marker_variants(texts)
+            if judge_one:
+                for t in vs:
+                    tried += 1
+                    try: d = judge_one(t)
+                    except Exception: d = None  # noqa
+                    if d: R.notes.append(f"search: {tried} derived markers tried"); return dict(marker=t), d
+            if judge_pair:
+                for x in vs[:40]:
+                    for y in vs[:40]:
+                        tried += 1
+                        try: d = judge_pair(x, y)
+                        except Exception: d = None  # noqa
+                        if d: R.notes.append(f"search: {tried} derived pairs tried"); return dict(a=x, b=y), d
+        if fresh:
+            for item in fresh(R):
+                tried += 1
+                try: d = judge_pair(*item) if isinstance(item, tuple) else judge_one(item)
+                except Exception: d = None  # noqa
+                if d: R.notes.append(f"search: {tried} cases tried"); return (dict(a=item[0], b=item[1]) if isinstance(item, tuple) else dict(marker=item)), d
+        R.notes.append(f"search: {tried} cases tried, no failing input")
+        return None
+    return search
